@@ -31,6 +31,7 @@ type Term struct {
 	Bound bool
 	// for quantifiers
 	QVars []*Term
+	Pats  []*Term
 	id    int
 }
 
@@ -426,7 +427,18 @@ func (t *Term) write(sb *strings.Builder, names map[*Term]string) {
 			sb.WriteString("(" + v.Op + " " + string(v.Sort) + ")")
 		}
 		sb.WriteString(") ")
+		if len(t.Pats) > 0 {
+			sb.WriteString("(! ")
+		}
 		t.Args[0].write(sb, names)
+		if len(t.Pats) > 0 {
+			for _, p := range t.Pats {
+				sb.WriteString(" :pattern (")
+				p.write(sb, names)
+				sb.WriteString(")")
+			}
+			sb.WriteString(")")
+		}
 		sb.WriteString(")")
 		return
 	}
@@ -522,4 +534,13 @@ func sortedKeys[V any](m map[string]V) []string {
 	}
 	sort.Strings(ks)
 	return ks
+}
+
+// ForallPat is Forall with explicit instantiation patterns.
+func ForallPat(vars []*Term, body *Term, pats ...*Term) *Term {
+	t := Forall(vars, body)
+	if t.QVars != nil {
+		t.Pats = pats
+	}
+	return t
 }
